@@ -15,6 +15,15 @@ import (
 func init() {
 	t513 := "the writer's escape table covers the reader's: in the Pack of the two JSON-framed protocols the body (MarshalBody, through OnPack) and the service method reach the frame only through an escaper that distinguishes the quote (ends the literal for gjson), the backslash (starts an escape) and every control byte below 0x20 (gjson truncates an escaped string there); a Replace chain or strconv.Quote (\\x escapes gjson does not know) is not such an escaper"
 	register(&Rule{ID: "C05.13", Prop: "C05", Min: 4, Text: t513, Run: runJSONEscaping})
+	register(&Rule{ID: "C07.15", Prop: "C07", Min: 4,
+		Text: "the closed state is reached and the disconnect hook runs when the framework closes a session itself: code running under the handler wait-group reaches session.Close only through a `go` statement (same obligations as C06.6) - on an unsupported message type a synchronous Close waits for its own goroutine, the session stays ActiveClosing for ever and PostDisconnect never runs",
+		Run:  runC06_6})
+	register(&Rule{ID: "C09.10", Prop: "C09", Min: 3,
+		Text: "the calling side's stages are ordered: AsyncCall holds the per-call mutex (deferred unlock) from before the publication until it returns, so PostWriteCall has run before bindReply - which takes the same mutex (C09.8) - starts the reply stages (same obligations as C02.3); releasing it right after the write lets PostReadReplyHeader overtake PostWriteCall",
+		Run:  runC02_3})
+	register(&Rule{ID: "C01.13", Prop: "C01", Min: 6,
+		Text: "no metadata of an earlier message on a thrift session: both thrift Pack functions clear the transport's persistent write headers first and store every header field on every path (same obligations as C12.10) - a message without metadata must not go out with the last Tp-Meta sent",
+		Run:  runThriftHeaders})
 	register(&Rule{ID: "C01.12", Prop: "C01", Min: 4, Text: "a handler sees exactly the body its sender supplied over the JSON-framed protocols (same obligations as C05.13): " + t513, Run: runJSONEscaping})
 }
 
@@ -480,4 +489,381 @@ func runC06_11(c *Ctx) {
 	}
 	c.Check(ok && okArg, "SetMessageSizeLimit forwards the limit", pos, "every path hands messageSizeLimit to xfer.SetUnpackSizeLimit",
 		"socket.SetMessageSizeLimit returns without handing the stored limit to xfer.SetUnpackSizeLimit: the filters keep inflating up to the previous (default 1 GB) bound under a smaller read limit")
+}
+
+// ---------------------------------------------------------------------------------------------------------------
+// C07.14 / C08.9 / C13.12  a session that became Ok is indexed on every path
+
+func init() {
+	t := "every established session is listed: at each of the four establishment sites SessionHub.set (directly or through a helper) dominates the store of statusOk or lies on every path from it to a return - readDisconnected removes a redialing session from the index, so a redial that skips the insert (for instance when the id did not change) leaves a live session that Peer.Close, GetSession and RangeSession never see"
+	register(&Rule{ID: "C07.14", Prop: "C07", Min: 4, Text: t, Run: runOkImpliesIndexed})
+	register(&Rule{ID: "C08.9", Prop: "C08", Min: 4, Text: "peer Close waits for every live session's handlers: it closes the sessions it finds in the index, so " + t, Run: runOkImpliesIndexed})
+	register(&Rule{ID: "C13.12", Prop: "C13", Min: 4, Text: "a redialed session is the same listed Session: " + t, Run: runOkImpliesIndexed})
+	register(&Rule{ID: "C08.10", Prop: "C08", Min: 1,
+		Text: "a reply written during a graceful close is not refused by a stale timer: session.write (re)sets the write deadline on every path to Socket.WriteMessage (same obligations as C03.13) - otherwise the deadline of an earlier message fails the genuine reply and the caller gets a connection error",
+		Run:  runC03_13})
+}
+
+func runOkImpliesIndexed(c *Ctx) {
+	p := c.P
+	set := p.MethodObj(Root, "SessionHub", "set")
+	sub := &Ctx{P: p, rule: c.rule, Facts: c.Facts}
+	sites := establishmentSites(sub) // composition facts are reported by C07.3
+	okEf := okStoreEffect(p)
+	setEf := effect{"sessHub.set", func(i ssa.Instruction) bool { _, isCall := i.(*ssa.Call); return isCall && IsCallTo(i, set) }}
+	for _, s := range sites {
+		oks := p.performs(s.fn, okEf, 0)
+		sets := map[ssa.Instruction]bool{}
+		for _, in := range p.performs(s.fn, setEf, 0) {
+			sets[in] = true
+		}
+		if len(oks) == 0 {
+			c.Undec(s.name+" Ok store", p.Pos(s.fn.Pos()), "no store of statusOk found at this establishment site: idiom not recognised")
+			continue
+		}
+		for _, in := range oks {
+			key := s.name + " Ok => indexed"
+			if sets[in] {
+				c.Hold(key, p.InstrPos(in), "the helper that sets Ok also inserts into the index")
+				continue
+			}
+			before := false
+			for st := range sets {
+				if Dominates(st, in) {
+					before = true
+				}
+			}
+			if before {
+				c.fact("dominance")
+				c.Hold(key, p.InstrPos(in), "SessionHub.set dominates the Ok store")
+				continue
+			}
+			ok, exits := p.MustPassBeforeExit(in, func(i ssa.Instruction) bool { return sets[i] }, nil)
+			c.fact("must-pass")
+			pos := p.InstrPos(in)
+			if !ok && len(exits) > 0 {
+				pos = p.InstrPos(exits[0])
+			}
+			c.Check(ok, key, pos, "every path from the Ok store to a return passes SessionHub.set",
+				"a path from changeStatus(statusOk) in "+s.name+" returns without SessionHub.set: the session is live (reads, handles, can call) but not in the peer's index - Peer.Close does not close it or wait for its handlers, GetSession/RangeSession/CountSession do not see it")
+		}
+	}
+}
+
+// ---------------------------------------------------------------------------------------------------------------
+// C20.8 / C05.14  a buffer made on a pool miss is as empty as a recycled one
+
+func init() {
+	t := "a buffer handed out by BufferPool.Get is empty on the miss path too: every returned value is the pool's object or a new ByteBuffer whose B is stored once with a zero-length slice (make([]byte, 0, n) / nil) and on which nothing but Reset is called before the return - Put resets recycled buffers, so a pre-sized new one (length = calibrated default) puts NUL bytes in front of whatever its user appends"
+	register(&Rule{ID: "C20.8", Prop: "C20", Min: 2, Text: t, Run: runFreshBufferEmpty})
+	register(&Rule{ID: "C05.14", Prop: "C05", Min: 2, Text: "a packed frame holds the message alone, whatever traffic calibrated the buffer pool before: " + t, Run: runFreshBufferEmpty})
+}
+
+func runFreshBufferEmpty(c *Ctx) {
+	p := c.P
+	utilsPkg := Root + "/utils"
+	fn := p.Fn(utilsPkg, "BufferPool", "Get")
+	bbN, bIdx := p.FieldIndex(utilsPkg, "ByteBuffer", "B")
+	reset := p.MethodObj(utilsPkg, "ByteBuffer", "Reset")
+	n := 0
+	Instrs(fn, func(i ssa.Instruction) {
+		ret, ok := i.(*ssa.Return)
+		if !ok {
+			return
+		}
+		for _, rv := range ReturnVals(ret) {
+			v := Resolve(rv)
+			n++
+			key := fmt.Sprintf("BufferPool.Get result #%d", n)
+			switch x := v.(type) {
+			case *ssa.TypeAssert:
+				c.HoldTrivial(key, p.InstrPos(ret), "the pool's (reset) object")
+			case *ssa.Alloc:
+				if derefNamed(x.Type()) != bbN {
+					c.Undec(key, p.InstrPos(ret), "returns a new object of another type: idiom not recognised")
+					continue
+				}
+				bad := ""
+				if x.Referrers() != nil {
+					for _, r := range *x.Referrers() {
+						switch y := r.(type) {
+						case *ssa.FieldAddr:
+							if y.Field != bIdx || y.Referrers() == nil {
+								continue
+							}
+							for _, rr := range *y.Referrers() {
+								st, isSt := rr.(*ssa.Store)
+								if !isSt || st.Addr != ssa.Value(y) {
+									continue
+								}
+								switch sv := st.Val.(type) {
+								case *ssa.MakeSlice:
+									if k, isK := ConstIntOf(sv.Len); !isK || k != 0 {
+										bad = "B is made with a non-zero length"
+									}
+								case *ssa.Const:
+									if !sv.IsNil() {
+										bad = "B is stored with a non-nil constant"
+									}
+								default:
+									bad = "B is stored with " + st.Val.String() + " (not a zero-length make)"
+								}
+							}
+						case ssa.CallInstruction:
+							if !IsCallTo(r, reset) {
+								name := "a function"
+								if o := CalleeObj(y); o != nil {
+									name = o.Name()
+								}
+								bad = name + " is called on the new buffer before it is handed out"
+							}
+						}
+					}
+				}
+				c.fact("value-identity")
+				c.Check(bad == "", key, p.InstrPos(ret), "new ByteBuffer with a zero-length B", "the buffer made on a pool miss is not empty ("+bad+"): once the pool has calibrated a default size, a Pack that takes such a buffer frames NUL bytes in front of the message - size and content then depend on earlier traffic")
+			default:
+				c.Undec(key, p.InstrPos(ret), "returned value is neither the pool's object nor a new ByteBuffer: idiom not recognised")
+			}
+		}
+	})
+}
+
+// ---------------------------------------------------------------------------------------------------------------
+// C02.14 / C13.13  a failed redial attempt does not leave the session in Preparing
+
+func init() {
+	t := "a redial attempt rejected by a dial hook hands the session back in statusRedialing: every path from the store of statusPreparing (redial callback) to a return of a non-nil error passes a store of statusRedialing - the closeLocked that follows an exhausted redial is immediate only from Redialing (from Preparing it is a graceful close that waits for the very call whose write started the redial), and only Redialing can become RedialFailed"
+	register(&Rule{ID: "C02.14", Prop: "C02", Min: 1, Text: t, Run: runPreparingRestored})
+	register(&Rule{ID: "C13.13", Prop: "C13", Min: 1, Text: t, Run: runPreparingRestored})
+}
+
+func runPreparingRestored(c *Ctx) {
+	p := c.P
+	st := p.statusTable()
+	trs, err := p.statusTransitions()
+	if err != nil {
+		c.Undec("transition-extraction", "", err.Error())
+		return
+	}
+	n := 0
+	for _, tr := range trs {
+		if st.name[tr.to] != "statusPreparing" || tr.cas {
+			continue
+		}
+		n++
+		restore := map[ssa.Instruction]bool{}
+		for _, t2 := range trs {
+			if t2.fn == tr.fn && st.name[t2.to] == "statusRedialing" {
+				restore[t2.call] = true
+			}
+		}
+		bad := p.ReachableFrom(tr.call, func(i ssa.Instruction) bool {
+			ret, ok := i.(*ssa.Return)
+			if !ok {
+				return false
+			}
+			for _, rv := range ReturnVals(ret) {
+				if _, isErr := rv.Type().Underlying().(*types.Interface); isErr && !IsNilConst(rv) {
+					return true
+				}
+			}
+			return false
+		}, func(i ssa.Instruction) bool { return restore[i] }, nil)
+		c.fact("path-search")
+		key := FnName(tr.fn) + " Preparing restored on failure"
+		pos := p.InstrPos(tr.call)
+		if len(bad) > 0 {
+			pos = p.InstrPos(bad[0])
+		}
+		c.Check(len(bad) == 0, key, pos, "every failing return after the Preparing store passes a Redialing store",
+			"the redial callback can return an error with the session still in statusPreparing: when the attempts are exhausted closeLocked() runs the graceful close (it waits for the outstanding-call wait group, i.e. for the call whose own write triggered this redial - Call/AsyncCall never return) and the session can never become RedialFailed")
+	}
+	if n == 0 {
+		c.Undec("Preparing store", "", "no blind store of statusPreparing found (the redial callback is expected): idiom not recognised")
+	}
+}
+
+// ---------------------------------------------------------------------------------------------------------------
+// C04.14 / C12.11  httproto: the status entity of an error reply goes through the announced filter
+
+func init() {
+	t := "an error reply over HTTP is encoded the way its headers announce: in the function of proto/httproto that writes the JSON form of a non-OK status (Status.MarshalJSON) as the entity, that value is handed to the announced filter's OnPack and what is written (and measured for Content-Length) is the merge of the raw and the packed value - Pack has already put Content-Encoding into the headers because a reply inherits the call's pipe, so a status written raw is gunzipped by the caller and never seen"
+	register(&Rule{ID: "C04.14", Prop: "C04", Min: 1, Text: t, Run: runHTTPStatusEntityPacked})
+	register(&Rule{ID: "C12.11", Prop: "C12", Min: 1, Text: "a reply is sent through the caller's pipe, error replies included: " + t, Run: runHTTPStatusEntityPacked})
+}
+
+func forwardClosure(srcs ...ssa.Value) map[ssa.Value]bool {
+	seen := map[ssa.Value]bool{}
+	work := append([]ssa.Value{}, srcs...)
+	for _, s := range srcs {
+		seen[s] = true
+	}
+	for len(work) > 0 {
+		v := work[len(work)-1]
+		work = work[:len(work)-1]
+		if v.Referrers() == nil {
+			continue
+		}
+		for _, r := range *v.Referrers() {
+			switch x := r.(type) {
+			case *ssa.Extract, *ssa.Phi, *ssa.Slice, *ssa.ChangeType, *ssa.Convert:
+				val := x.(ssa.Value)
+				if !seen[val] {
+					seen[val] = true
+					work = append(work, val)
+				}
+			}
+		}
+	}
+	return seen
+}
+
+func runHTTPStatusEntityPacked(c *Ctx) {
+	p := c.P
+	httpPkg := Root + "/proto/httproto"
+	n := 0
+	for _, fn := range p.ShippedFuncs() {
+		if fn.Pkg == nil || fn.Pkg.Pkg.Path() != httpPkg {
+			continue
+		}
+		// only send-side functions: those that write into a ByteBuffer
+		for _, call := range AllCalls(fn) {
+			o := CalleeObj(call)
+			if o == nil || o.Name() != "MarshalJSON" || !strings.HasSuffix(o.FullName(), "status.Status).MarshalJSON") {
+				continue
+			}
+			v, ok := call.(ssa.Value)
+			if !ok {
+				continue
+			}
+			raw := forwardClosure(v)
+			// is the raw value written into the frame at all?
+			var packed []ssa.Value
+			var packCall ssa.CallInstruction
+			for _, c2 := range AllCalls(fn) {
+				o2 := CalleeObj(c2)
+				if o2 == nil || o2.Name() != "OnPack" {
+					continue
+				}
+				for _, a := range CallArgs(c2) {
+					if raw[a] {
+						packCall = c2
+						if pv, ok := c2.(ssa.Value); ok {
+							packed = append(packed, pv)
+						}
+					}
+				}
+			}
+			all := forwardClosure(append([]ssa.Value{v}, packed...)...)
+			packedOnly := forwardClosure(packed...)
+			var writes []ssa.CallInstruction
+			for _, c2 := range AllCalls(fn) {
+				o2 := CalleeObj(c2)
+				if o2 == nil || o2.Name() != "Write" {
+					continue
+				}
+				for _, a := range CallArgs(c2) {
+					if all[a] {
+						writes = append(writes, c2)
+					}
+				}
+			}
+			if len(writes) == 0 {
+				continue // not the function that frames the status entity
+			}
+			n++
+			key := "status entity in " + FnName(fn)
+			c.fact("value-forward")
+			if packCall == nil {
+				c.Viol(key, p.InstrPos(writes[0]), "the JSON form of the status is written as the entity without being offered to the announced transfer filter (no OnPack takes it): with Content-Encoding already in the headers the caller inflates plain JSON, the reply is lost and the handler's status never reaches the caller")
+				continue
+			}
+			okW := true
+			for _, w := range writes {
+				for _, a := range CallArgs(w) {
+					if all[a] && !packedOnly[a] {
+						okW = false // a write of the raw value that the packed one does not merge into
+					}
+				}
+			}
+			c.Check(okW, key, p.InstrPos(packCall), "written value = merge of the raw status JSON and its OnPack result", "the raw status JSON is written although it was packed: the written entity is not the value the filter produced")
+		}
+	}
+	if n == 0 {
+		c.Undec("status entity", "", "no function of proto/httproto writes Status.MarshalJSON into the frame: idiom not recognised")
+	}
+}
+
+// ---------------------------------------------------------------------------------------------------------------
+// C06.12  no index can go below zero on the log path
+
+func init() {
+	register(&Rule{ID: "C06.12", Prop: "C06", Min: 1,
+		Text: "the log renderer cannot index below zero: on the printRunLog path (which runs after the recover barriers, in pool goroutines) every variable slice/string index has a lower bound >= 0 by interval analysis (a counter that only grows from a non-negative start, or a dominating comparison with a constant) - a cursor walked backwards without a floor panics on a crafted body and kills the process",
+		Run: runC06_12})
+}
+
+func logPathFuncs(p *Prog) []*ssa.Function {
+	start := p.Fn(Root, "session", "printRunLog")
+	seen := map[*ssa.Function]bool{}
+	var fns []*ssa.Function
+	var rec func(f *ssa.Function, d int)
+	rec = func(f *ssa.Function, d int) {
+		if f == nil || seen[f] || len(f.Blocks) == 0 || d > 5 || f.Pkg == nil || !strings.HasPrefix(f.Pkg.Pkg.Path(), Root) {
+			return
+		}
+		seen[f] = true
+		fns = append(fns, f)
+		for _, call := range AllCalls(f) {
+			rec(call.Common().StaticCallee(), d+1)
+		}
+	}
+	rec(start, 0)
+	return fns
+}
+
+func runC06_12(c *Ctx) {
+	p := c.P
+	fns := logPathFuncs(p)
+	nIdx := 0
+	for _, fn := range fns {
+		k := 0
+		Instrs(fn, func(i ssa.Instruction) {
+			var base, idx ssa.Value
+			switch x := i.(type) {
+			case *ssa.IndexAddr:
+				base, idx = x.X, x.Index
+			case *ssa.Lookup:
+				if _, isMap := x.X.Type().Underlying().(*types.Map); isMap {
+					return
+				}
+				base, idx = x.X, x.Index
+			default:
+				return
+			}
+			if _, isC := constI64(idx); isC {
+				return
+			}
+			if _, isArr := base.Type().Underlying().(*types.Pointer); isArr {
+				return // fixed-size tables indexed by a byte / nibble
+			}
+			if b, isB := idx.Type().Underlying().(*types.Basic); isB && b.Info()&types.IsUnsigned != 0 {
+				return
+			}
+			nIdx++
+			eng := &linEngine{p: p, fn: fn, at: i.Block(), slack: map[ssa.Value]bool{}, busy: map[ssa.Value]bool{}}
+			iv := eng.interval(idx)
+			c.fact("interval")
+			if iv.lo >= 0 {
+				return
+			}
+			k++
+			c.Viol(fmt.Sprintf("index without a floor #%d in %s", k, FnName(fn)), p.InstrPos(i), fmt.Sprintf("%s indexes with a value whose lower bound cannot be shown >= 0 (interval [%d,..]): a cursor walked backwards over a crafted body (e.g. 1025 UTF-8 continuation bytes) reaches -1 - on the printRunLog path that panic is raised after the recover barriers, in a pool goroutine, and kills the process", FnName(fn), iv.lo))
+		})
+	}
+	c.Hold("log rendering path scanned for indexes without a floor", "", fmt.Sprintf("%d functions reachable from printRunLog, %d variable index expression(s), all with a lower bound >= 0", len(fns), nIdx))
+	if len(fns) < 5 || nIdx == 0 {
+		c.Undec("log rendering path", "", fmt.Sprintf("only %d functions / %d variable indexes reachable from printRunLog", len(fns), nIdx))
+	}
 }
